@@ -96,6 +96,8 @@ func valueMenu() []val {
 	out = append(out, val{"float64(-0)", rv(math.Copysign(0, -1))}, val{"float32(-0)", rv(float32(math.Copysign(0, -1)))}, val{"float64(NaN)", rv(math.NaN())}, val{"float64(+Inf)", rv(math.Inf(1))})
 	out = append(out, val{"float32(0.1)", rv(float32(0.1))}, val{"float32(1.5)", rv(float32(1.5))}, val{"uint8(255)", rv(uint8(255))}, val{"int8(-128)", rv(int8(-128))})
 	out = append(out, val{`""`, rv("")})
+	// values whose clause alone is longer than 4 KiB / 8 KiB (the clause echoes the value)
+	out = append(out, val{"a x4100", rv(strings.Repeat("a", 4100))}, val{"1 x9000", rv(strings.Repeat("1", 9000))})
 	enum.Strings([]string{"a", "1", "中", " ", "/", "-", "."}, 3, func(s string) { out = append(out, val{fmt.Sprintf("%q", s), rv(s)}) })
 	for _, s := range []string{"13800138000", "a@b.cn", "1.2.3.4", "::1", "2021", "2021-09", "2021/09", "2021-09-28", "2021/09/28", "2021-09-28 23:00:00", "12", "1.5", `{"a":1}`, "1,2,3", "1-2-3", "1,1",
 		"110101199003074514", "aaaa", "hello world", "a b", " a", "a ", "中文 a",
